@@ -9,5 +9,6 @@ CONSTANTS
   ServeFromIndexNotOrder = FALSE
   TrustScanOrder = FALSE
   SwapBeforeApply = FALSE
+  BatchOnSharedCopy = FALSE
 INVARIANT Inv
 CHECK_DEADLOCK FALSE
